@@ -754,7 +754,9 @@ void harness(void)
 			for (unsigned int i = 0; i < TM_CAP; i++)
 				if (!reload && pre_pfx.used[i] && tm_prec_eq(&pre_pfx.rec[i], &m))
 					present = true;
-			unsigned int want = e->flags > 1 ? CORRUPT_DATA :
+			unsigned int width = e->type == IPV4_PREFIX ? 32 : 128;
+			bool bad_len = e->pr.min_len > width || e->pr.max_len > width || e->pr.min_len > e->pr.max_len;
+			unsigned int want = (e->flags > 1 || bad_len) ? CORRUPT_DATA :
 					    (e->flags == 1 && present) ? DUPLICATE_ANNOUNCEMENT :
 					    (e->flags == 0 && !present) ? WITHDRAWAL_OF_UNKNOWN_RECORD : 99;
 			if (want == 99) {
